@@ -13,6 +13,10 @@ type Harness struct {
 	// ModelOnly: the harness runs against an environment model of the engine (symbolic file system,
 	// scheduler) that has no native counterpart; its counterexamples are reported as found in the model.
 	ModelOnly bool
+	// ClockModel: the harness depends on the instants returned by the engine's clock model; a
+	// counterexample is replayed natively, but when it does not reproduce there (the wall clock cannot be
+	// steered) it is still reported, as found in the clock model; witness observations are not compared.
+	ClockModel bool
 }
 
 type Check struct {
@@ -226,7 +230,7 @@ var checks = []Check{
 	},
 	{
 		Property:    "C07",
-		Harnesses:   append(stepFamily(2, []int{opBulk, opCreateIndex}), lemClone),
+		Harnesses:   append(stepFamily(2|1, []int{opBulk, opInsertMany, opCreateIndex}), lemClone),
 		Assumptions: append([]string{"inductive step from the canonical state (DESIGN.md 3.4); the pre-state is assumed duplicate-free and the same predicate is asserted of every post-state"}, commonAssumptions...),
 		Bounds:      stBounds,
 	},
@@ -239,7 +243,7 @@ var checks = []Check{
 	{
 		Property: "C08",
 		Harnesses: append(stepFamily(8, []int{opBulk}),
-			Harness{Dir: ".", Func: "H_C08_clean", Quick: P{"maxevents": 3}, Thorough: P{"maxevents": 4}},
+			Harness{Dir: ".", Func: "H_C08_clean", Quick: P{"maxevents": 2}, Thorough: P{"maxevents": 3}, ClockModel: true, Note: "symbolic clock: counterexamples are instants of the clock model, the wall clock cannot be steered natively"},
 			lemClone),
 		Assumptions: append([]string{"clock model: time.Now returns arbitrary non-decreasing instants between 2001 and 2100 (so the uint32 age arithmetic of Clean cannot wrap); bsonkit.Now runs from its real SSA on top of it"}, commonAssumptions...),
 		Bounds:      append([]string{"retention: oplog of <= maxevents events with symbolic timestamps, min/max size in 0..4, min age in {0,1s,10s,1h}, max age in {1s,10s,1h}; the clock does not tick during the call; at the exact boundary second of the maximum age either outcome is accepted", "update events: updatedFields/removedFields faithfulness is covered only through the full-document replay (field-level diff is outside this check)"}, stBounds...),
@@ -257,8 +261,8 @@ var checks = []Check{
 	{
 		Property: "C19",
 		Harnesses: []Harness{
-			{Dir: ".", Func: "H_C19_expire", Quick: P{"maxdocs": 2, "fixedclock": 1}, Thorough: P{"maxdocs": 2, "fixedclock": 1}, Note: "the clock stands still at one arbitrary instant"},
-			{Dir: ".", Func: "H_C19_expire", Thorough: P{"maxdocs": 1}, Note: "arbitrary non-decreasing clock (second roll-over between the writes and the pass)"},
+			{Dir: ".", Func: "H_C19_expire", Quick: P{"maxdocs": 2, "fixedclock": 1}, Thorough: P{"maxdocs": 2, "fixedclock": 1}, ClockModel: true, Note: "the clock stands still at one arbitrary instant"},
+			{Dir: ".", Func: "H_C19_expire", Thorough: P{"maxdocs": 1}, ClockModel: true, Note: "arbitrary non-decreasing clock (second roll-over between the writes and the pass)"},
 			lemClone,
 		},
 		Assumptions: append([]string{"clock model: arbitrary non-decreasing instants; the pass is bracketed by two clock readings t0 <= now <= t1: documents older than t0-expiry must go, documents not older than t1-expiry must stay, in between either outcome is accepted"}, commonAssumptions...),
@@ -268,7 +272,7 @@ var checks = []Check{
 		Property: "C06",
 		Harnesses: []Harness{
 			{Dir: ".", Func: "H_C06_roundtrip", Quick: P{"maxdocs": 1, "tags": stQuickTags, "ctags": TInt32}, Thorough: P{"maxdocs": 2, "tags": stQuickTags, "ctags": TInt32}},
-			{Dir: ".", Func: "H_C06_commit", Quick: P{"maxwrites": 2}, Thorough: P{"maxwrites": 3}, Note: "what Commit persists is what it publishes, also when retention trims the change log"},
+			{Dir: ".", Func: "H_C06_commit", Quick: P{"maxwrites": 2}, Thorough: P{"maxwrites": 3}, ClockModel: true, Note: "what Commit persists is what it publishes, also when retention trims the change log"},
 			lemClone,
 		},
 		Assumptions: append([]string{"the mongo-driver BSON codec (bson.Marshal/Unmarshal of the File struct) is NOT encoded: value-level fidelity of the codec (int32 vs int64, NaN, -0, binary subtypes) is outside this check; the claim covers lungo's own BuildFile/BuildCatalog/index rebuild logic only"}, commonAssumptions...),
